@@ -270,15 +270,14 @@ PROPS = {
         "timeout": 3600,
     },
     "C09": {
-        "compare_with_model": False,
         "property_module": "AutosarVerif.Properties.C09",
         "modules": ["AutosarVerif.Properties.C09"],
         "closure": ['AutosarVerif.Properties.C09', 'AutosarVerif.Lemmas.Files'],
         "scenario": 'merge',
         "scenario_args": [],
         "rule": "random master models built through the API, split over 2-4 files at splittable points (shared and exclusive packages, permuted siblings, mixed versions, BSW containers), documents written by the scenario's own writer; ALL load orders; oracles: union = master (after sort), attribution = split, per-file serialize/reload, order independence, conflicting files rejected with no effect, remove_file exactness.",
-        "trusted_base": ['harness/src/merge.rs'],
-        "assumptions": ['the merge algorithm itself has no Lean model; the Lean side proves properties of effective file membership'],
+        "trusted_base": ['harness/src/merge.rs (generator, own writer, oracles)', 'hand model of parser.rs and of merge_element (Model/Parser.lean, Model/Merge.lean), tied by the load requests of every load order'],
+        "assumptions": ['theorems about the merge model are limited to what Properties/C09.lean states; union / attribution / order independence are decided by the oracle'],
         "timeout": 3600,
     },
     "C15": {
